@@ -127,6 +127,23 @@ def bc_problems(deck, t4, base, P, ctx):
     for s in flagged:
         users = used_by_converted(deck, rf, s.id)
         conv = [c for c in users if converted(deck, rf, c, base)]
+        # "bounds a converted cell": the locus is a surface of at least one written non-virtual volume
+        f_s = card_locus(s, P, ctx)
+        bounding = set()
+        for v in t4.vols.values():
+            if not v.fictive:
+                bounding |= set(v.pluses) | set(v.minuses)
+        bounds = f_s is not None and any(sid in t4.surfs and same_locus(t4sem.surf_at(t4.surfs[sid], P, ctx), f_s, base)
+                                         for sid in bounding)
+        # two cards with the same locus but different kinds of flag contradict each other: outside the claim
+        if f_s is not None and any(s2.id != s.id and s2.bc != s.bc and card_locus(s2, P, ctx) is not None
+                                   and same_locus(card_locus(s2, P, ctx), f_s, base) for s2 in flagged):
+            continue
+        if not bounds:
+            if matched[s.id]:
+                pbs.append(('bc-count', 'flagged surface %s%d bounds no written cell but has %d entries' %
+                            (s.bc, s.id, len(matched[s.id])), (s.id, len(matched[s.id]))))
+            continue
         if conv and len(matched[s.id]) != 1:
             pbs.append(('bc-count', 'flagged surface %s%d bounds converted cell(s) %s but has %d entries' %
                         (s.bc, s.id, conv, len(matched[s.id])), (s.id, len(matched[s.id]))))
